@@ -1,5 +1,5 @@
 import ParolModel.Proofs.LRTermSumm
-/-! The two real tables used as counterexamples in Props/C19d.lean (finding F24) and the loops the
+/-! The two real tables used as counterexamples in Props/C19e.lean (finding F24) and the loops the
 parser model runs into on them. -/
 namespace ParolModel
 
